@@ -78,7 +78,13 @@ fn write_selections_for_query_text(
         Format::Compact => (" ", &"".to_string()),
     };
 
-    if items.is_empty() {
+    // Client pointers print nothing: a selection set that holds nothing else would be empty,
+    // which is not GraphQL (`viewer { }`). (generate_normalization_ast_text decides the same way.)
+    let prints_nothing = items
+        .values()
+        .all(|item| matches!(item, MergedServerSelection::ClientObjectSelectable(_)));
+
+    if prints_nothing {
         query_text.push_str(indent);
         query_text.push_str("__typename,");
         query_text.push_str(new_line);
